@@ -812,6 +812,10 @@ impl<T, A: Allocator> RawTable<T, A> {
         // Erase the element from the table first since drop might panic.
         self.erase_no_drop(&item);
         item.drop();
+        #[cfg(hashbrown_verif)]
+        if verif_hooks::unwinding() {
+            return;
+        }
     }
 
     /// Removes an element from the table, returning it.
